@@ -10,6 +10,7 @@ CONSTANTS
   MaxHold = 2
   MaxSick = 2
   MaxReset = 2
+  MaxIdle = 0
   AllowReset = TRUE
   Depth = 22
 CHECK_DEADLOCK FALSE
